@@ -188,8 +188,41 @@ def gen_shape(rng, max_numel=36):
             return shape
 
 
+STATS = {}
+
+
+def _stat(c):
+    for f in c['funcs']:
+        e = f['elem']
+        for key in (f'class:{e["cls"]}', f'op:{c["op"]}', f'weight:{e["w"]["kind"]}{"_complex" if e["w"].get("im") is not None else ""}',
+                    f'target:{e["b"]["kind"]}{"_complex" if e["b"].get("im") is not None else ""}',
+                    f'dim:{"none" if e["dim"] is None else ("int" if isinstance(e["dim"], int) else "tuple" + ("_neg" if any(d < 0 for d in e["dim"]) else ""))}',
+                    f'divide_by_n:{e["divn"]}', f'keepdim:{e["keepdim"]}', f'nested_scales:{len(f["scales"])}'):
+            STATS[key] = STATS.get(key, 0) + 1
+    sv = c['sigma']['vals']
+    for key in (f'sigma:{c["sigma"]["kind"]}{"_multi" if len(sv) > 1 else ""}', f'x_complex:{c["xs"][0].get("im") is not None}',
+                f'rank:{len(c["xs"][0]["shape"])}', f'precision:{"float32-tolerant" if f32_path(c) else "float64-strict"}'):
+        STATS[key] = STATS.get(key, 0) + 1
+    if any(v == 0 for v in sv):
+        STATS['sigma_has_zero'] = STATS.get('sigma_has_zero', 0) + 1
+    if any(0 < v < 1e-8 for v in sv):
+        STATS['sigma_has_tiny(<1e-8)'] = STATS.get('sigma_has_tiny(<1e-8)', 0) + 1
+    if c.get('malformed'):
+        STATS['malformed'] = STATS.get('malformed', 0) + 1
+    return c
+
+
+def extra_checks(ctx):
+    for k, v in sorted(STATS.items()):
+        ctx.count(k, v)
+
+
 def gen_elementary(rng, tier):
-    cases = []
+    # fixed member: the reproduction of known finding KF-C08-1 (complex weight, real x and target, forward)
+    cases = [{'op': 'forward', 'sep': False, 'sigma': {'kind': 'py', 'shape': [], 'vals': [1.0]},
+              'xs': [{'shape': [2], 're': [2.0, -1.0], 'im': None}],
+              'funcs': [{'scales': [], 'elem': {'cls': 'L1NormViewAsReal', 'w': {'kind': 't', 'shape': [], 're': [3.0], 'im': [4.0]},
+                                                'b': {'kind': 'none'}, 'dim': None, 'divn': False, 'keepdim': False}}]}]
     n = 170 if tier == 'quick' else 4000
     for i in range(n):
         op = ['forward', 'prox', 'pcc'][i % 3]
@@ -206,7 +239,7 @@ def gen_elementary(rng, tier):
         sigma['vals'][k] = -rng.choice([0.5, 1.0, TINY])
         e, x = gen_elem(rng, shape, op, {'kind': 'py', 'shape': [], 'vals': [1.0]})
         cases.append({'op': op, 'funcs': [{'scales': [], 'elem': e}], 'xs': [x], 'sigma': sigma, 'sep': False, 'malformed': True})
-    return cases
+    return [_stat(c) for c in cases]
 
 
 def gen_scale(rng, positive):
@@ -237,7 +270,7 @@ def gen_scaled(rng, tier):
         e, x = gen_elem(rng, shape, op, sigma, allow_quirk=False)
         cases.append({'op': op, 'funcs': [{'scales': [{'kind': 'py', 'v': -rng.choice([0.5, 2.0])}], 'elem': e}], 'xs': [x],
                       'sigma': sigma, 'sep': False, 'malformed': True})
-    return cases
+    return [_stat(c) for c in cases]
 
 
 def gen_separable(rng, tier):
@@ -257,7 +290,7 @@ def gen_separable(rng, tier):
             funcs.append({'scales': scales, 'elem': e})
             xs.append(x)
         cases.append({'op': op, 'funcs': funcs, 'xs': xs, 'sigma': sigma, 'sep': True, 'via_or': rng.random() < 0.5})
-    return cases
+    return [_stat(c) for c in cases]
 
 
 # ------------------------------------------------------------------------------------------------
@@ -344,6 +377,8 @@ def impl(c):
                 out['moreau'] = [t_out(v) for v in S.prox_convex_conj(*[x / sigma for x in xs], sigma=1 / sigma)]
         else:
             out['outs'] = [t_out(v) for v in S.prox_convex_conj(*xs, sigma=sigma)]
+            if all(v > 0 for v in c['sigma']['vals']) and _scales_pos(c):
+                out['moreau'] = [t_out(v) for v in S.prox(*[x / sigma for x in xs], sigma=1 / sigma)]
     else:
         f, x = fns[0], xs[0]
         if c['op'] == 'forward':
@@ -358,6 +393,9 @@ def impl(c):
         else:
             (v,) = f.prox_convex_conj(x, sigma)
             out['outs'] = [t_out(v)]
+            if all(s > 0 for s in c['sigma']['vals']) and _scales_pos(c):
+                (m,) = f.prox(x / sigma, 1 / sigma)
+                out['moreau'] = [t_out(m)]
     out['x_unchanged'] = all(torch.equal(a, b) for a, b in zip(xs, xs0))
     return out
 
@@ -449,6 +487,8 @@ def f32_path(c):
             return True
         if f['elem']['cls'] == 'L1NormViewAsReal' and c['sigma']['kind'] == 'py':
             return True
+        if f['elem']['b']['kind'] in ('py', 'pyint', 'pyc') and c['sigma']['kind'] == 'py':
+            return True   # python sigma * float32 target buffer is a float32 product (sigma * target in prox_convex_conj)
     return False
 
 
@@ -616,7 +656,24 @@ def oracle(c, o):
                 if not np.isfinite(err) or err > (1e-4 if f32_path(c) else 1e-9) * max(1.0, float(np.max(np.abs(x)))):
                     return f'Moreau identity x = prox(x, s) + s * prox_convex_conj(x/s, 1/s) violated for input {k}: residual {err:.3e}'
         return None
-    return None   # prox_convex_conj alone: checked through the Moreau identity in the prox cases and by correspondence
+    # prox_convex_conj(x, s): Moreau's identity at (x/s, 1/s) reads  x = s * prox(x/s, 1/s) + prox_convex_conj(x, s)
+    if 'moreau' in o:
+        for k, (f, x, pc, g) in enumerate(zip(c['funcs'], xs, outs, o['moreau'])):
+            if list(pc.shape) != list(x.shape):
+                return f'prox_convex_conj output {k} has shape {list(pc.shape)}, x has {list(x.shape)}'
+            pr = np.array(g['re']).reshape(g['shape']) + 1j * np.array(g['im']).reshape(g['shape'])
+            sig = sig_arr(c['sigma'], x.shape)
+            res = x - sig * pr - pc
+            err = float(np.max(np.abs(res))) if res.size else 0.0
+            tol = 1e-4 if f32_path(c) else 1e-9
+            ref = max(1.0, float(np.max(np.abs(x))))
+            if f['elem']['cls'] == 'L1NormViewAsReal' and float(np.min(sig)) < 1e-7:
+                # documented tweak of the generic fallback: sigma < 1e-8 is replaced by sigma + 1e-6 (shifts the result by ~1e-6 * |target|)
+                b = bc(f['elem']['b'], x.shape)
+                tol, ref = 1e-4, max(ref, float(np.max(np.abs(b))) if b is not None else 1.0)
+            if not np.isfinite(err) or err > tol * ref:
+                return (f'Moreau identity x = s * prox(x/s, 1/s) + prox_convex_conj(x, s) violated for input {k}: residual {err:.3e}')
+    return None
 
 
 def descr(c):
